@@ -253,7 +253,9 @@ type zz15T11 struct {
 	Zz15Rec
 }
 
-const zz15NTypes = 11
+// zz15KFDiamond: recorded known finding (see /verif/known_findings.json): a field reachable only
+// through a struct type that is met twice at the same depth is not cancelled (type zz15T10).
+const zz15KFDiamond = "KF-C15-diamond-embedding"
 
 // zz15Table: the documented resolution, written by hand (NOT derived by running the code).
 func zz15Table(t int) []zz15M {
@@ -453,7 +455,8 @@ func VerifC15Marshal(t, state int) {
 			continue
 		}
 		// anything else can only be the member of the fallback
-		vrt.Assert("C15/marshal/only-documented-members", fb && len(g.Path) == 1 && string(g.Path[0]) == "k" && string(g.Raw) == "9")
+		vrt.AssertKF("C15/marshal/only-documented-members", fb && len(g.Path) == 1 && string(g.Path[0]) == "k" && string(g.Raw) == "9",
+			zz15KFDiamond, t == 10 && len(g.Path) == 1 && string(g.Path[0]) == "Y")
 		fbSeen++
 	}
 	vrt.Assert("C15/marshal/all-members-in-order", wi == len(want))
@@ -577,7 +580,9 @@ func VerifC15Unmarshal(t int, tmpl, alpha string, opt int) {
 		}
 	}
 
-	vrt.Assert("C15/unmarshal/error-iff-documented", (err != nil) == wantErr)
+	// known finding: in the diamond type T10 the name Y (tied at depth 3, hence unknown) is stored into T.A.C.D.Y (leaf 3)
+	kf := t == 10 && res == zzspec.Unknown && level == 0 && (string(flat[0].Path[0]) == "Y" || (matchCI && zzspec.SameFolded(flat[0].Path[0], []byte("Y"))))
+	vrt.AssertKF("C15/unmarshal/error-iff-documented", (err != nil) == wantErr, zz15KFDiamond, kf)
 	for i, p := range leaves {
 		if p == nil {
 			continue
@@ -585,7 +590,7 @@ func VerifC15Unmarshal(t int, tmpl, alpha string, opt int) {
 		if i == wantLeaf {
 			vrt.Assert("C15/unmarshal/designated-field-set", *p == val)
 		} else {
-			vrt.Assert("C15/unmarshal/other-fields-untouched", *p == 0)
+			vrt.AssertKF("C15/unmarshal/other-fields-untouched", *p == 0, zz15KFDiamond, kf && i == 3)
 		}
 	}
 	if wantLeaf >= 0 {
